@@ -42,13 +42,14 @@ MANIFEST = {
 
 PLAN17 = {
     "quick": dict(mc=["MC_Reobserve_quick.cfg", "MC_Reobserve_post.cfg"], tlc=(150, 16),
-                  gens=[("sweep", 112), ("random", 160), ("phase", 120), ("fill", 60), ("wide", 12)]),
+                  gens=[("sweep", 112), ("random", 160), ("phase", 120), ("fill", 60), ("txids", 60), ("wide", 12)]),
     "thorough": dict(mc=["MC_Reobserve_thorough.cfg", "MC_Reobserve_post.cfg"], tlc=(2500, 24),
-                     gens=[("sweep", 448), ("random", 3000), ("phase", 2500), ("fill", 600), ("wide", 60)]),
+                     gens=[("sweep", 448), ("random", 3000), ("phase", 2500), ("fill", 600), ("txids", 600), ("wide", 60)]),
 }
 PLAN15 = {"quick": dict(seeded=800, batches=250), "thorough": dict(seeded=20000, batches=6000)}
 
 ASSUME17 = [
+    "a transaction is identified by the exact byte string of its id (any length), a chain by its exact 32-bit id",
     "the harness issues a request only after the previous step's sentinel was received and the ticker channel is empty, i.e. tick processing "
     "latency is negligible against the minute-scale window (in production select may serve a request before a simultaneously due tick)",
     "mock clock semantics as modelled in MC_Reobserve.tla (ticks at multiples of the period since creation, 1-slot channel, non-blocking offer)",
@@ -58,6 +59,7 @@ ASSUME17 = [
 ASSUME15 = [
     "requests are what the protobuf wire format can carry (every case passes through proto.Marshal/Unmarshal); text fields are ASCII",
     "a fixed-width field is representable only by a value of exactly that many bytes; rejection is always an allowed outcome",
+    "two guardian keys are the same guardian iff they decode to the same 20 bytes (whatever their spelling); a set naming a guardian twice must be rejected",
     "module names are compared up to leading NUL bytes (left-padded wire field); cross-kind injectivity assumes the token bridge's module name",
     "Keccak-256 is trusted; the harness's digest is recomputed by a pure-python Keccak from the logged fields (payloads up to 64 KiB)",
     "contract side by source extraction of governance.ral and token_bridge_governance.ral, not by executing the contracts",
@@ -151,6 +153,8 @@ def run17(tier, replay):
 
     # coverage
     reqc = Counter()
+    txlens = Counter()
+    aliasc = Counter()
     advc = Counter()
     postc = Counter()
     acts = Counter()
@@ -158,6 +162,9 @@ def run17(tier, replay):
         acts[c["ev"]] += 1
         if c["ev"] == "Request":
             reqc[(c["known"], c["wide"], c["fill"], c["age"], c["fwd"], c["phase"])] += 1
+            txlens[c["txlen"]] += 1
+            if c["alias"] and c["age"] == "never":
+                aliasc["forwarded" if c["fwd"] else "dropped-%s" % c["fill"]] += 1
         elif c["ev"] == "Advance":
             advc[(c["ticks"], c["mode"], c["coalesced"], c["long"])] += 1
         elif c["ev"] == "Post":
@@ -166,7 +173,8 @@ def run17(tier, replay):
         need = {"forwarded": any(k[4] for k in reqc), "suppressed-in-window": any(k[3] == "ltW" and not k[4] and k[2] != "full" for k in reqc),
                 "forwarded-again": any(k[3] in ("gtWP", "eqWP") and k[4] for k in reqc), "dropped-full": any(k[2] in ("full", "cap0") and not k[4] for k in reqc),
                 "dropped-unknown": any(not k[0] for k in reqc), "zone-both": {k[4] for k in reqc if k[3] == "zone" and k[2] in ("empty", "partial")} == {True, False},
-                "post-ok": any(k[0] for k in postc), "post-full": any(not k[0] for k in postc)}
+                "post-ok": any(k[0] for k in postc), "post-full": any(not k[0] for k in postc),
+                "colliding-tx-ids-forwarded": aliasc["forwarded"] >= 20, "tx-id-lengths": len(txlens) >= 8}
         missing = [k for k, v in need.items() if not v]
         if missing and rc == 0:
             raise vlib.Broken("vacuous run: never observed %s" % missing)
@@ -191,6 +199,8 @@ def run17(tier, replay):
         "request_classes": {"/".join(map(str, k)): v for k, v in sorted(reqc.items(), key=str)},
         "advance_classes": {"/".join(map(str, k)): v for k, v in sorted(advc.items(), key=str)},
         "post_classes": {"/".join(map(str, k)): v for k, v in sorted(postc.items(), key=str)},
+        "tx_id_lengths_bytes": {str(k): v for k, v in sorted(txlens.items())},
+        "requests_whose_id_collides_with_a_forwarded_one_under_crop_or_pad": dict(aliasc),
         "queue_capacities": {str(k): v for k, v in sorted(caps.items())},
         "scenario_sources": dict(Counter(sc.get("src") for sc in scenarios)),
         "negative_selftest": {str(k): v[0] for k, v in expect.items()},
